@@ -1,15 +1,18 @@
 package main
 
-// C03 (schedule part): PlayerJoin racing the opening of a hand (the table is cloned and swapped while the
-// hand opens). Whatever the order, table and seat manager must agree on the seated-in flag afterwards.
+// C03 (schedule part): one membership call racing the opening of a hand (the table is cloned, positions
+// are rotated in the seat manager and the clone is swapped in while the hand opens). Whatever the order,
+// table, seat map and seat manager must agree afterwards, a call that returned nil must have taken effect
+// (the newcomer is on the table, the leaver is gone) and a call that returned an error must not.
 
 import (
 	"fmt"
 
+	pt "github.com/weedbox/pokertable"
 	"verif.local/vrt"
 )
 
-func c03Inject(prefix []int) *vrt.Exec {
+func c03Inject(prefix []int, op string) *vrt.Exec {
 	return runTable(prefix, vrt.Config{FineAll: true}, func(env *vrt.Env) (string, string, string) {
 		td, err := newTD(env, defaultCfg(4))
 		if err != nil {
@@ -22,7 +25,20 @@ func c03Inject(prefix []int) *vrt.Exec {
 		var ret error
 		env.WindowBegin()
 		env.AdvanceTimer() // the gate's timeout: tableGameOpen becomes runnable
-		th := env.Go("injector:join", true, func() { ret = td.te.PlayerJoin("c") })
+		th := env.Go("injector:"+op, true, func() {
+			switch op {
+			case "join":
+				ret = td.te.PlayerJoin("c")
+			case "reserve":
+				ret = td.te.PlayerReserve(pt.JoinPlayer{PlayerID: "x", RedeemChips: 20, Seat: 3})
+			case "reserve-random":
+				ret = td.te.PlayerReserve(pt.JoinPlayer{PlayerID: "x", RedeemChips: 20, Seat: -1})
+			case "leave":
+				ret = td.te.PlayersLeave([]string{"c"})
+			case "update":
+				_, ret = td.te.UpdateTablePlayers([]pt.JoinPlayer{{PlayerID: "x", RedeemChips: 20, Seat: 3}}, []string{"c"})
+			}
+		})
 		for i := 0; i < 6; i++ {
 			env.Settle()
 			if td.pending().Kind != "" || env.PendingTimers() == 0 {
@@ -33,9 +49,18 @@ func c03Inject(prefix []int) *vrt.Exec {
 		env.Join(th)
 		env.WindowEnd()
 		env.Settle()
-		out := fmt.Sprintf("join returned %v; c seated-in on the table: %v", ret, td.player("c") != nil && td.player("c").IsIn)
+		has := func(id string) bool { return td.player(id) != nil }
+		out := fmt.Sprintf("%s returned %v; c on the table: %v (seated-in %v); x on the table: %v", op, ret, has("c"), has("c") && td.player("c").IsIn, has("x"))
 		if v := membInvariant(td); v != nil {
-			return out, "invariant@" + v.Key + "/join-racing-open", "PlayerJoin(c) returned " + fmt.Sprint(ret) + " while hand 1 was being opened; afterwards: " + v.Detail
+			return out, "invariant@" + v.Key + "/" + op + "-racing-open", op + " returned " + fmt.Sprint(ret) + " while hand 1 was being opened; afterwards: " + v.Detail
+		}
+		wantX := ret == nil && (op == "reserve" || op == "reserve-random" || op == "update")
+		wantC := !(ret == nil && (op == "leave" || op == "update"))
+		if has("x") != wantX && op != "join" {
+			return out, "call-result-vs-state@" + op + "-racing-open", fmt.Sprintf("%s returned %v while hand 1 was being opened, but afterwards the newcomer x is on the table: %v", op, ret, has("x"))
+		}
+		if has("c") != wantC {
+			return out, "call-result-vs-state@" + op + "-racing-open", fmt.Sprintf("%s returned %v while hand 1 was being opened, but afterwards c is on the table: %v", op, ret, has("c"))
 		}
 		return out, "", ""
 	})
@@ -46,5 +71,10 @@ func c03SchedSuites(tier string) []*Suite {
 	if tier == "thorough" {
 		bound = 2
 	}
-	return []*Suite{{Name: "memb/inject-join-racing-open", Bound: bound, Weight: 50, Run: c03Inject}}
+	var ss []*Suite
+	for _, op := range []string{"join", "reserve", "reserve-random", "leave", "update"} {
+		op := op
+		ss = append(ss, &Suite{Name: "memb/inject-" + op + "-racing-open", Bound: bound, Weight: 50, Run: func(prefix []int) *vrt.Exec { return c03Inject(prefix, op) }})
+	}
+	return ss
 }
